@@ -3,6 +3,9 @@ MC: TdmsData.FootprintBounded (the algorithm model fetches only chunks overlappi
 TRACE (code -> spec): every shape TLC enumerates is built as a file and opened lazily over a recording stream; all
 windows and integer indices are executed and the (position, size) of every read is logged; Trace_Footprint.tla
 accepts a trace iff every step's bytes lie inside the request's allowed regions."""
+import json
+import zlib
+
 from .. import tlc, trace
 from ..common import Check, Replayer, Machinery
 from ..genrun import run_config
@@ -29,7 +32,7 @@ def run(tier):
 
         def on_gen(rec):
             cnt[0] += 1
-            rp.add({"rec": rec, "seed": chk.seed, "variant": cnt[0] % 5, "id": cnt[0]})
+            rp.add({"rec": rec, "seed": chk.seed, "variant": (zlib.crc32(json.dumps(rec, sort_keys=True).encode()) >> 3) % 5, "id": cnt[0]})
 
         res = tlc.run(module, cfg, name="C19-" + module, overrides=ov2, on_gen=on_gen)
         chk.add_tlc("%s %s (MC: FootprintBounded, AlgorithmCorrect)" % (cfg, ov), res)
